@@ -18,7 +18,7 @@ pub fn decode_pg(t: &mut Tape, cfg: &GenCfg, gcfg: &GoalCfg, ngoals: usize) -> P
         return PG { program, goals };
     }
     // shape knob: several constraints on one unknown (only where goals may have unknowns)
-    if gcfg.exists && t.chance(15) {
+    if gcfg.exists && t.chance(25) {
         let program = gen_conj_program(t);
         let goals = (0..ngoals).map(|_| gen_conj_goal(t, &program)).collect();
         return PG { program, goals };
